@@ -112,6 +112,11 @@ pub fn bls_cache_ground() -> EvalResult {
         ("empty-list-default-sig", vec![], Signature::default(), true),
         ("infinity-key-extra-pair", vec![(pk1, b"hello".to_vec()), (inf, b"x".to_vec())], s1.clone(), false),
         ("infinity-key-only", vec![(inf, b"x".to_vec())], Signature::default(), false),
+        // the infinity key anywhere in the list, the signature being the valid aggregate of the other pairs
+        ("infinity-key-first", vec![(inf, b"x".to_vec()), (pk1, b"hello".to_vec())], s1.clone(), false),
+        ("infinity-key-middle", vec![(pk1, b"hello".to_vec()), (inf, b"x".to_vec()), (pk2, b"world".to_vec())], both.clone(), false),
+        ("infinity-key-first-of-three", vec![(inf, b"x".to_vec()), (pk1, b"hello".to_vec()), (pk2, b"world".to_vec())], both.clone(), false),
+        ("infinity-key-twice-then-valid", vec![(inf, b"x".to_vec()), (inf, b"y".to_vec()), (pk1, b"hello".to_vec())], s1.clone(), false),
         ("infinity-key-honest-signature", vec![(inf, b"hello".to_vec())], s1.clone(), false),
         ("valid-single", vec![(pk1, b"hello".to_vec())], s1.clone(), true),
         ("tampered-single", vec![(pk1, b"hellO".to_vec())], s1.clone(), false),
@@ -355,7 +360,10 @@ pub fn replay_pos(_input: &Value) -> (bool, String) {
 /// Ground obligations for C09 on fixed generators: the trusted-block helper reports the same additions (coin and
 /// hint) and removals as full validation.  Generators are quoted spend lists `(q . ((parent puzzle amount solution)))`
 /// whose puzzle is `(q . conditions)`, one per memo/hint shape.
-fn trusted_check_prog(name: &str, prog: Vec<u8>, res: &mut EvalResult) {
+fn trusted_check_prog(name: &str, prog: Vec<u8>, res: &mut EvalResult) { trusted_check_prog_refs(name, prog, &[], res) }
+
+/// the same with previous generators referenced by the block (handed to every helper in the same order)
+fn trusted_check_prog_refs(name: &str, prog: Vec<u8>, blocks: &[&[u8]], res: &mut EvalResult) {
     use chia_bls::Signature;
     use chia_consensus::additions_and_removals::additions_and_removals;
     use chia_consensus::consensus_constants::TEST_CONSTANTS;
@@ -364,9 +372,9 @@ fn trusted_check_prog(name: &str, prog: Vec<u8>, res: &mut EvalResult) {
     use chia_consensus::run_block_generator::run_block_generator2;
     res.obligations += 1;
         let flags = ConsensusFlags::DONT_VALIDATE_SIGNATURE;
-        let blocks: [&[u8]; 0] = [];
-        let full = run_block_generator2(&prog, blocks, 11_000_000_000, flags, &Signature::default(), None, &TEST_CONSTANTS);
-        let fast = additions_and_removals(&prog, blocks, flags, &TEST_CONSTANTS);
+        let blocks: Vec<&[u8]> = blocks.to_vec();
+        let full = run_block_generator2(&prog, blocks.clone(), 11_000_000_000, flags, &Signature::default(), None, &TEST_CONSTANTS);
+        let fast = additions_and_removals(&prog, blocks.clone(), flags, &TEST_CONSTANTS);
         let verdict: Result<(), String> = match (full, fast) {
             (Ok((a2, conds)), Ok((adds, rems))) => {
                 let owned = OwnedSpendBundleConditions::from(&a2, conds);
@@ -390,13 +398,13 @@ fn trusted_check_prog(name: &str, prog: Vec<u8>, res: &mut EvalResult) {
                     use chia_consensus::run_block_generator::get_coinspends_for_trusted_block;
                     use chia_consensus::spendbundle_conditions::run_spendbundle;
                     use chia_protocol::{Program, SpendBundle};
-                    match get_coinspends_for_trusted_block(&TEST_CONSTANTS, &Program::new(prog.clone().into()), blocks, flags) {
+                    match get_coinspends_for_trusted_block(&TEST_CONSTANTS, &Program::new(prog.clone().into()), blocks.clone(), flags) {
                         Err(e) => Err(format!("full validation accepts but get_coinspends_for_trusted_block fails: {e:?}")),
                         Ok(css) => {
                             let ids: Vec<String> = css.iter().map(|c| hex::encode(c.coin.coin_id())).collect();
                             // the variant that also lists each spend's conditions: the same coin spends, and every CREATE_COIN of
                             // the validated conditions among the listed conditions (they are never dropped by the per-spend limit)
-                            let with_conds = chia_consensus::run_block_generator::get_coinspends_with_conditions_for_trusted_block(&TEST_CONSTANTS, &Program::new(prog.clone().into()), blocks, flags);
+                            let with_conds = chia_consensus::run_block_generator::get_coinspends_with_conditions_for_trusted_block(&TEST_CONSTANTS, &Program::new(prog.clone().into()), blocks.clone(), flags);
                             let wc_problem: Option<String> = match &with_conds {
                                 Err(e) => Some(format!("get_coinspends_with_conditions_for_trusted_block fails: {e:?}")),
                                 Ok(list) => {
@@ -440,6 +448,8 @@ fn trusted_check_prog(name: &str, prog: Vec<u8>, res: &mut EvalResult) {
                     }
                 }
             }
+            // (the shapes with references are built to be valid: a rejection means the shape, not the code, is wrong)
+            (Err(e), _) if !blocks.is_empty() => Err(format!("full validation rejects the block: {e:?}")),
             (Err(_), _) => Ok(()), // not a block full validation accepts: outside the statement
             (Ok(_), Err(e)) => Err(format!("full validation accepts but additions_and_removals fails: {e:?}")),
         };
@@ -596,6 +606,49 @@ pub fn trusted_paths_ground() -> EvalResult {
             blocks.push(("zero-amount-coin-creates-coins", finish(&mut a, &[s0, s1])));
         }
         for (nm, prog) in blocks { trusted_check_prog(nm, prog, &mut res); }
+        // generators that are programs (not quoted lists) and take their data from the previous generators the block references:
+        // environment (deserializer (ref1 ref2 ...)), so path 9 is the first reference, 21 the second, 45 the third.  The
+        // spent coin's parent id and the created coins' puzzle hashes come from different references: every helper must hand
+        // the references over in the order full validation does
+        {
+            fn cons(a: &mut Allocator, first: NodePtr, rest: NodePtr) -> NodePtr {
+                let op = a.new_atom(&[4]).unwrap();
+                let nil = a.nil();
+                let t = a.new_pair(rest, nil).unwrap();
+                let t = a.new_pair(first, t).unwrap();
+                a.new_pair(op, t).unwrap()
+            }
+            fn quote(a: &mut Allocator, v: &[u8]) -> NodePtr { let q = a.new_atom(&[1]).unwrap(); let v = a.new_atom(v).unwrap(); a.new_pair(q, v).unwrap() }
+            let make = |parent_path: u8, ph_paths: &[u8]| -> Vec<u8> {
+                let mut a = Allocator::new();
+                let nil = a.nil();
+                let mut conds = nil;
+                for (i, php) in ph_paths.iter().enumerate().rev() {
+                    let ph = a.new_atom(&[*php]).unwrap();
+                    let amount = quote(&mut a, &[1 + i as u8]);
+                    let e = cons(&mut a, amount, nil);
+                    let e = cons(&mut a, ph, e);
+                    let op = quote(&mut a, &[51]);
+                    let cond = cons(&mut a, op, e);
+                    conds = cons(&mut a, cond, conds);
+                }
+                let e = cons(&mut a, conds, nil);
+                let amount = quote(&mut a, &[0x03, 0xe8]);
+                let e = cons(&mut a, amount, e);
+                let puzzle = quote(&mut a, &[1]);
+                let e = cons(&mut a, puzzle, e);
+                let parent = a.new_atom(&[parent_path]).unwrap();
+                let spend = cons(&mut a, parent, e);
+                let spends = cons(&mut a, spend, nil);
+                let output = cons(&mut a, spends, nil);
+                node_to_bytes(&a, output).unwrap()
+            };
+            let r1 = [0xaau8; 32]; let r2 = [0xbbu8; 32]; let r3 = [0xccu8; 32];
+            trusted_check_prog_refs("one-reference", make(9, &[9]), &[&r1], &mut res);
+            trusted_check_prog_refs("two-references", make(9, &[21]), &[&r1, &r2], &mut res);
+            trusted_check_prog_refs("two-references-swapped-roles", make(21, &[9]), &[&r1, &r2], &mut res);
+            trusted_check_prog_refs("three-references", make(9, &[45, 21]), &[&r1, &r2, &r3], &mut res);
+        }
     }
     res
 }
